@@ -2,11 +2,14 @@ package props
 
 import (
 	"fmt"
+	"go/token"
 	"go/types"
+	"strings"
 
 	"golang.org/x/tools/go/ssa"
 
 	"verif/engine/internal/core"
+	"verif/engine/internal/locks"
 )
 
 // (6) CURSOR — the block reader of a rotated metrics block narrows its next binary search over the series offset
@@ -72,4 +75,269 @@ func c08Cursor(c *core.Ctx, r *core.Report) {
 		}
 	}
 	r.Floor("CURSOR", "stores to the block reader's cursor fields", n, 3)
+}
+
+// (8) LENPREFIX — a length-prefixed field is written as "length, then bytes".  The reader takes the length at its
+// word, so the number written must be the length of exactly the bytes that follow; a length taken from another form
+// of the value (its escaped spelling, its raw JSON bytes) shifts everything behind it: the reader swallows the series
+// ids as part of the value, the series cannot be found by selector and every later entry of the chunk is lost.
+// In the metrics writer packages, for every buffer write of an encoded integer that is len(A) of some A, the next
+// write to the same buffer writes A.
+func c08LenPrefix(c *core.Ctx, r *core.Report) {
+	scope := []string{core.ModPath + "/" + pkgMetrics}
+	type pair struct {
+		fn   *ssa.Function
+		lenW ssa.CallInstruction
+		of   ssa.Value
+	}
+	lenOf := func(v ssa.Value) ssa.Value {
+		// UintNNToBytesLittleEndian(uintNN(len(A)))  ->  A
+		call, ok := v.(*ssa.Call)
+		if !ok {
+			return nil
+		}
+		f := core.CalleeFunc(call)
+		if f == nil || !strings.HasPrefix(f.Name(), "Uint") || !strings.Contains(f.Name(), "ToBytes") || len(call.Call.Args) != 1 {
+			return nil
+		}
+		x := call.Call.Args[0]
+		for i := 0; i < 3; i++ {
+			if cv, ok := x.(*ssa.Convert); ok {
+				x = cv.X
+			}
+		}
+		lc, ok := x.(*ssa.Call)
+		if !ok {
+			return nil
+		}
+		if bi, ok := lc.Call.Value.(*ssa.Builtin); ok && bi.Name() == "len" {
+			return lc.Call.Args[0]
+		}
+		return nil
+	}
+	isBufWrite := func(ci ssa.CallInstruction) (buf, data ssa.Value, ok bool) {
+		f := core.CalleeFunc(ci)
+		if f == nil || f.Pkg() == nil || f.Pkg().Path() != "bytes" || (f.Name() != "Write" && f.Name() != "WriteString") {
+			return nil, nil, false
+		}
+		args := ci.Common().Args
+		if len(args) != 2 {
+			return nil, nil, false
+		}
+		return args[0], args[1], true
+	}
+	sameData := func(a, b ssa.Value) bool {
+		strip := func(v ssa.Value) ssa.Value {
+			for i := 0; i < 3; i++ {
+				switch x := v.(type) {
+				case *ssa.Convert:
+					v = x.X
+				case *ssa.Slice:
+					if x.Low == nil && x.High == nil {
+						v = x.X
+					}
+				}
+			}
+			return v
+		}
+		return strip(a) == strip(b)
+	}
+	n := 0
+	for _, fn := range c.RepoFunctions() {
+		in := false
+		for _, p := range scope {
+			if strings.HasPrefix(core.FnPkgPath(fn), p) {
+				in = true
+			}
+		}
+		if !in {
+			continue
+		}
+		k := 0
+		for _, ci := range core.CallsIn(fn) {
+			buf, data, ok := isBufWrite(ci)
+			if !ok {
+				continue
+			}
+			A := lenOf(data)
+			if A == nil {
+				continue
+			}
+			// a byte length (string / []byte), not an element count that is followed by a loop over the elements
+			isBytes := false
+			switch t := A.Type().Underlying().(type) {
+			case *types.Basic:
+				isBytes = t.Info()&types.IsString != 0
+			case *types.Slice:
+				if eb, ok := t.Elem().Underlying().(*types.Basic); ok && eb.Kind() == types.Uint8 {
+					isBytes = true
+				}
+			}
+			if !isBytes {
+				continue
+			}
+			n++
+			k++
+			construct := fmt.Sprintf("%s:length-prefix#%d-is-the-length-of-what-follows", shortFn(fn), k)
+			// the next write to the same buffer on the straight path (skipping error-return branches)
+			var next ssa.CallInstruction
+			core.WalkForward(fn, ci, func(in ssa.Instruction) bool {
+				if next != nil {
+					return false
+				}
+				if c2, ok := in.(ssa.CallInstruction); ok {
+					if b2, _, ok := isBufWrite(c2); ok && b2 == buf {
+						next = c2
+						return false
+					}
+				}
+				return true
+			})
+			if next == nil {
+				r.Undecided("LENPREFIX", construct, c.Pos(ci.Pos()), "no following write to the same buffer found")
+				continue
+			}
+			_, d2, _ := isBufWrite(next)
+			r.Check(sameData(A, d2), "LENPREFIX", construct, c.Pos(ci.Pos()),
+				"the length written is len() of the value written next",
+				"the length prefix is the length of one value and the bytes written after it are another value (for instance the raw, escaped form against the unescaped one): whenever the two lengths differ the reader mis-frames the entry, swallows the series ids that follow as part of the value and loses the rest of the chunk")
+		}
+	}
+	r.Floor("LENPREFIX", "length-prefixed buffer writes in the metrics writer", n, 1)
+}
+
+// (9) COUNT16 — the tags tree stores, per tag value, a 16-bit count followed by that many series ids, and a 16-bit
+// length followed by the value's bytes.  A count or length above 65535 does not fit: written through a bare uint16()
+// conversion it is silently reduced modulo 65536 while ALL the ids / bytes are still written, so the reader mis-frames
+// the entry and everything behind it.  Every uint16 conversion of a len() in encodeTagsTree lies where the length is
+// known to be at most 65535 (a dominating comparison whose other edge leaves the encoder).
+func c08Count16(c *core.Ctx, r *core.Report) {
+	fn := c.Fn(pkgMetrics, "TagTree.encodeTagsTree")
+	n := 0
+	for _, b := range fn.Blocks {
+		for _, in := range b.Instrs {
+			cv, ok := in.(*ssa.Convert)
+			if !ok {
+				continue
+			}
+			tb, ok := cv.Type().Underlying().(*types.Basic)
+			if !ok || tb.Kind() != types.Uint16 {
+				continue
+			}
+			lc, ok := cv.X.(*ssa.Call)
+			if !ok {
+				continue
+			}
+			bi, ok := lc.Call.Value.(*ssa.Builtin)
+			if !ok || bi.Name() != "len" {
+				continue
+			}
+			n++
+			what := "count"
+			if _, isStr := lc.Call.Args[0].Type().Underlying().(*types.Basic); isStr {
+				what = "length"
+			}
+			// bounded: some comparison of this len value with a constant <= 65535 is known to hold here
+			bounded := false
+			for _, b2 := range fn.Blocks {
+				for _, in2 := range b2.Instrs {
+					cmp, ok := in2.(*ssa.BinOp)
+					if !ok || cmp.X != ssa.Value(lc) {
+						continue
+					}
+					k, ok := core.ConstIntValue(cmp.Y)
+					if !ok {
+						continue
+					}
+					known := core.BoolKnownAt(cmp, b)
+					switch cmp.Op {
+					case token.GTR:
+						bounded = bounded || (known == core.No && k <= 65535)
+					case token.GEQ:
+						bounded = bounded || (known == core.No && k <= 65536)
+					case token.LEQ:
+						bounded = bounded || (known == core.Yes && k <= 65535)
+					case token.LSS:
+						bounded = bounded || (known == core.Yes && k <= 65536)
+					}
+				}
+			}
+			// name the narrowed length by where its operand comes from, so that the obligation's key survives unrelated edits
+			subject := fmt.Sprintf("#%d", n)
+			switch a := lc.Call.Args[0].(type) {
+			case *ssa.UnOp:
+				if fa, ok := a.X.(*ssa.FieldAddr); ok {
+					subject = "len(" + core.FieldOfAddr(fa).Name() + ")"
+				}
+			case *ssa.Extract:
+				if call, ok := a.Tuple.(*ssa.Call); ok {
+					if f := core.CalleeFunc(call); f != nil {
+						subject = "len(result of " + f.Name() + ")"
+					}
+				}
+			case *ssa.Call:
+				if f := core.CalleeFunc(a); f != nil {
+					subject = "len(result of " + f.Name() + ")"
+				}
+			}
+			r.Check(bounded, "BOUND", fmt.Sprintf("%s:16-bit-%s-%s-is-bounded", shortFn(fn), what, subject), c.Pos(cv.Pos()),
+				"the value is known to be at most 65535 where it is narrowed",
+				"a "+what+" is narrowed to 16 bits without being known to fit: above 65535 the stored "+what+" is the true one modulo 65536 while all ids / bytes are still written, so the reader takes the surplus as the next entries; every series behind it in the chunk is lost or attributed to wrong tag values")
+		}
+	}
+	r.Floor("BOUND", "16-bit narrowings of lengths in encodeTagsTree", n, 2)
+}
+
+// (10) REDIRECT — a metrics query is planned against the block numbers it saw and executed later; if the in-memory block
+// was rotated in between, SearchUnrotatedMetricsBlock re-directs the planned block to the on-disk search
+// (searchReq.BlocksToSearch) — this is what keeps the datapoints of a block that rotates during a query in the result.
+// The re-direction must therefore be decided before the function can give up for any reason that concerns the NEW
+// in-memory block: once the segment's lock is taken, no return is reachable without passing the test of the planned
+// block numbers (the lookup in searchReq.UnrotatedBlkToSearch).
+func c08Redirect(c *core.Ctx, r *core.Report, a *locks.Analysis) {
+	fn := c.Fn(pkgMetrics, "SearchUnrotatedMetricsBlock")
+	plannedF := c.Field(pkgStructs, "MetricsSearchRequest.UnrotatedBlkToSearch")
+	var lookups []ssa.Instruction
+	for _, b := range fn.Blocks {
+		for _, in := range b.Instrs {
+			if lk, ok := in.(*ssa.Lookup); ok {
+				if ld, ok := lk.X.(*ssa.UnOp); ok {
+					if fa, ok := ld.X.(*ssa.FieldAddr); ok && core.FieldOfAddr(fa) == plannedF {
+						lookups = append(lookups, in)
+					}
+				}
+			}
+		}
+	}
+	r.Floor("ORDER", "tests of the planned unrotated block numbers", len(lookups), 1)
+	// the lock acquisition
+	var lockCall ssa.Instruction
+	for _, ci := range core.CallsIn(fn) {
+		if site, ok := a.SiteOf(ci); ok && (site.Op == locks.OpRLock || site.Op == locks.OpLock) && !site.Deferred && lockCall == nil {
+			lockCall = ci
+		}
+	}
+	if lockCall == nil {
+		r.Undecided("ORDER", shortFn(fn)+":redirect-decided-first", c.Pos(fn.Pos()), "no lock acquisition found")
+		return
+	}
+	isLookup := map[ssa.Instruction]bool{}
+	for _, l := range lookups {
+		isLookup[l] = true
+	}
+	var early *ssa.Return
+	core.WalkForward(fn, lockCall, func(in ssa.Instruction) bool {
+		if isLookup[in] {
+			return false
+		}
+		if ret, ok := in.(*ssa.Return); ok && early == nil {
+			early = ret
+		}
+		return true
+	})
+	if early != nil {
+		r.Violation("ORDER", shortFn(fn)+":redirect-decided-first", c.Pos(early.Pos()), "after the segment lock is taken the function can return before it has tested whether the planned block is still the in-memory block: when the block was rotated between planning and execution and the function gives up early (the fresh in-memory block overlaps nothing), the rotated block is searched neither in memory nor on disk and all its datapoints are missing from the result")
+	} else {
+		r.OK("ORDER", shortFn(fn)+":redirect-decided-first", c.Pos(lookups[0].Pos()), "every return after the lock acquisition is preceded by the test of the planned block numbers")
+	}
 }
